@@ -1,5 +1,5 @@
 """Writes seeded/<name>/meta.json from DESCRIPTIONS.json + run.json and prints the DESIGN.md table."""
-import glob, json, os
+import glob, json, os, re
 V = os.path.dirname(os.path.dirname(os.path.abspath(__file__)))
 D = json.load(open(f"{V}/seeded/DESCRIPTIONS.json"))
 rows = []
@@ -12,7 +12,7 @@ for d in sorted(glob.glob(f"{V}/seeded/C*")):
     sigs = sorted({l.split("signature: ")[1] for c in checks.values() for l in c.get("lines", []) if "signature: " in l})
     caught = bool(checks) and all(c["exit"] == 1 for c in checks.values())
     meta = {
-        "name": name, "property": pid, "round": 2 if "_r2" in name else 1,
+        "name": name, "property": pid, "round": int(re.search(r"_r(\d)", name).group(1)) if "_r" in name else 1,
         "written_by": "fresh sub-agent given only the property text and a scratch worktree of /repo",
         "change": what, "needs_to_manifest": needs,
         "files": {"patch": "patch.diff", "demonstration": "demo.py"},
